@@ -15,7 +15,7 @@ MCNames == {<<>>, <<110>>, <<65,95,46,98>>}
 \* few ops, so that a random walk also takes Build / Format / Parse / IntoBuilder / Respell often
 MCOps == {<<"with_namespace", <<97,47,47,66>>>>, <<"with_namespace", <<64,115>>>>, <<"with_name", <<47,63,35,37>>>>, <<"with_name", <<453,198>>>>,
           <<"with_version", <<64,37,32>>>>, <<"with_subpath", <<46,47,46,46,47,120>>>>, <<"with_qualifier", <<75,95>>, <<38,61,43>>>>,
-          <<"with_qualifier", <<107,97>>, <<>>>>, <<"with_qualifier", <<33>>, <<118>>>>,
+          <<"with_qualifier", <<107,97>>, <<>>>>, <<"with_qualifier", <<33>>, <<118>>>>, <<"with_qualifier", <<97>>, <<>>>>, <<"with_qualifier", <<65>>, <<49>>>>,
           <<"with_qualifier", CHECKSUM, <<66,58,48,65,44,97,58,102,70>>>>, <<"with_qualifier", CHECKSUM, <<122,122>>>>, <<"without_qualifiers">>}
          \cup {<<"with_package_type", t>> : t \in MCTypes}
 \* combined names for builder_with_combined_name (typed sessions only)
